@@ -1,4 +1,5 @@
 import Vflow.Proofs.CacheReach
+import Vflow.Proofs.JsonPrefix
 /-!
 # C11 — the template cache survives a restart; any cache file content is safe to load
 
@@ -7,13 +8,22 @@ can produce for `memCacheDisk`: absent / null shards, null maps, any `ShardNo`),
 (`GetCache` after the F9 repair), `CacheFile.docOf c` (the document `json.Unmarshal` reads back from
 `Dump`'s output for cache `c`).
 
-Not modelled (library, trusted, exercised by the correspondence on every run): the binding of file
-octets to `Doc` by `encoding/json` — in particular "a proper prefix of the dumped file is rejected",
-which the `*-cachefile` correspondence kinds check for EVERY prefix length of every sampled file
-on the real `GetCache`.  Hence the crash-point part of the property is `load_prefix_partial` below.
+Crash points (the collector is killed while `Dump` writes the file): `Spec.jsonValid` is a port of the scanner
+of Go's `encoding/json` (= `json.Valid`; `Spec/JsonText.lean`), `CacheFile.dumpJsonTs` the file with the
+timestamps that are really written.  Proved here: the file is accepted (`dump_valid`), **every proper prefix of
+it is rejected** (`dump_prefix_rejected`; both are instances of theorems about all RFC 8259 trees,
+`json_render_valid` / `json_render_prefix_rejected`), hence the next start comes up with a fresh cache
+(`load_prefix`).
+
+Not modelled (library, trusted): (1) `jsonValid` = `json.Valid` — sampled on every run by the `jsonvalid`
+correspondence kind (real dumps and their prefixes, structure-aware mutations, random octets); (2)
+`json.Unmarshal` returns an error for whatever `json.Valid` rejects (it runs the same scanner over the whole
+input first — `bindFile`); (3) the reflection-driven binding of an accepted text to `Doc` — a parameter of
+`load_prefix`, obtained from `encoding/json` itself in the `*-cachefile` correspondence kinds, which also load
+EVERY prefix of every sampled file with the real `GetCache`.
 -/
 namespace Vflow.C11
-open Vflow Vflow.CacheFile
+open Vflow Vflow.CacheFile Vflow.Spec
 
 /-- **C11 (restart)**: for every cache reachable by decoding (keys distinct), loading the document
 written for it gives a cache in which every key maps to the same template — so every datagram
@@ -104,13 +114,77 @@ theorem load_rejected : loadDoc none = [] := rfl
 theorem load_inconsistent (d : Doc) (h : docUsable d = false) : loadDoc (some d) = [] := by
   simp [loadDoc, h]
 
-/-- **C11 (crash points, partial)**: if `encoding/json` rejects a file content (as it does every
-proper prefix of a dumped file — checked exhaustively per sampled file by the correspondence, not
-proved: the JSON parser is library code), the result is the fresh cache.
-*Partial*: the premise "rejected" is an assumption about the library for prefixes. -/
+/-- **C11 (crash points, given rejection)**: if `encoding/json` rejects a file content, the result is the fresh
+cache — for any file and any binding function.  *Partial* in that "rejected" is a premise; for the prefixes of
+a dumped file the premise is now a theorem: see `load_prefix` below (`dump_prefix_rejected` + `bindFile`). -/
 theorem load_prefix_partial (bind : Bytes → Option Doc) (file : Bytes) (n : Nat)
     (hrej : bind (file.take n) = none) : loadDoc (bind (file.take n)) = [] := by
   rw [hrej]; rfl
+
+/-! ## Crash points: every proper prefix of the dumped file is rejected -/
+
+/-- **RFC 8259 trees are accepted**: for every well-formed tree `j` (`Spec.WF`: numbers satisfy `isNumber`, string
+bodies and keys `isStrBody`) whose brackets nest at most `maxNestingDepth` = 10000 deep — the limit of Go's
+scanner, which `jsonValid` mirrors; beyond it Go rejects the text — the compact rendering is accepted by
+`jsonValid` (the port of `json.Valid`) -/
+theorem json_render_valid (j : Json) (hwf : WF j) (hd : JsonScan.depth j ≤ maxNestingDepth) :
+    jsonValid (render j) = true :=
+  JsonScan.render_valid j hwf hd
+
+/-- **no proper prefix of a rendered object or array is accepted** (for scalars it is false: `1` is a prefix of `12`) -/
+theorem json_render_prefix_rejected (j : Json) (hwf : WF j) (hd : JsonScan.depth j ≤ maxNestingDepth)
+    (hc : JsonScan.isContainer j = true) (n : Nat) (hn : n < (render j).length) :
+    jsonValid ((render j).take n) = false :=
+  JsonScan.render_prefix_rejected j hwf hd hc n hn
+
+/-- the scanner fact behind it, for any text: an accepted text that begins with `{` or `[` and does not end in
+whitespace has no accepted proper prefix -/
+theorem json_valid_prefix_rejected (d : Bytes) (c0 : UInt8) (t : Bytes) (hd : d = c0 :: t) (hc0 : c0 = 123 ∨ c0 = 91)
+    (l : Bytes) (z : UInt8) (hlast : d = l ++ [z]) (hz : isSpace z = false) (hv : jsonValid d = true)
+    (n : Nat) (hn : n < d.length) : jsonValid (d.take n) = false :=
+  JsonScan.valid_prefix_rejected d c0 t hd hc0 l z hlast hz hv n hn
+
+/-- the file with real timestamps is the rendering of a well-formed object tree (`JsonPrefix.dumpTree`), 8 deep at most -/
+theorem dump_is_render (ipfix : Bool) (ts : Nat → Int) (c : Cache) :
+    dumpJsonTs ipfix ts c = render (JsonPrefix.dumpTree ipfix ts c) ∧ WF (JsonPrefix.dumpTree ipfix ts c) ∧
+      JsonScan.isContainer (JsonPrefix.dumpTree ipfix ts c) = true ∧ JsonScan.depth (JsonPrefix.dumpTree ipfix ts c) ≤ 8 :=
+  ⟨JsonPrefix.dumpJsonTs_eq_render ipfix ts c, JsonPrefix.dumpTree_wf ipfix ts c, rfl, JsonPrefix.dumpTree_depth ipfix ts c⟩
+
+/-- the canonical dump of the correspondence (`cf-dump` lines) is the one with all timestamps 0 -/
+theorem dump_zero (ipfix : Bool) (c : Cache) : dumpJson ipfix c = dumpJsonTs ipfix (fun _ => 0) c :=
+  JsonPrefix.dumpJsonTs_zero ipfix c
+
+/-- **the file `Dump` writes is valid JSON**, for every cache and every timestamps (both protocols) -/
+theorem dump_valid (ipfix : Bool) (ts : Nat → Int) (c : Cache) : jsonValid (dumpJsonTs ipfix ts c) = true :=
+  JsonPrefix.dump_valid ipfix ts c
+
+/-- **C11 (crash points)**: every proper prefix of the file `Dump` writes — whatever was written when the
+collector was killed — is rejected by the JSON scanner -/
+theorem dump_prefix_rejected (ipfix : Bool) (ts : Nat → Int) (c : Cache) (n : Nat)
+    (h : n < (dumpJsonTs ipfix ts c).length) : jsonValid ((dumpJsonTs ipfix ts c).take n) = false :=
+  JsonPrefix.dump_prefix_rejected ipfix ts c n h
+
+/-- `GetCache` reads the file: `json.Unmarshal(b, &mem)` first runs the scanner over the WHOLE input and returns its
+error without touching `mem` (`encoding/json/decode.go`, Go 1.23, `func Unmarshal`, lines 97–105:
+`err := checkValid(data, &d.scan); if err != nil { return err }` — `checkValid` is also all that `json.Valid`
+does, `scanner.go` lines 16–20 and 26–41); only an accepted text reaches the reflection-driven binding
+`bindValid` (library code, not modelled: any function). -/
+def bindFile (bindValid : Bytes → Option Doc) (bs : Bytes) : Option Doc :=
+  if jsonValid bs then bindValid bs else none
+
+/-- **C11 (crash points, restart)**: the collector killed at ANY point of writing the cache file comes up with a
+fresh, usable cache at the next start — for every cache, every timestamps, every prefix length, both protocols,
+and whatever the library's binding would make of a text -/
+theorem load_prefix (bindValid : Bytes → Option Doc) (ipfix : Bool) (ts : Nat → Int) (c : Cache) (n : Nat)
+    (h : n < (dumpJsonTs ipfix ts c).length) :
+    loadDoc (bindFile bindValid ((dumpJsonTs ipfix ts c).take n)) = [] := by
+  simp only [bindFile, dump_prefix_rejected ipfix ts c n h]
+  rfl
+
+/-- the complete file does reach the binding (so `load_save` applies to it when the binding yields `docOf c`) -/
+theorem load_whole (bindValid : Bytes → Option Doc) (ipfix : Bool) (ts : Nat → Int) (c : Cache) :
+    bindFile bindValid (dumpJsonTs ipfix ts c) = bindValid (dumpJsonTs ipfix ts c) := by
+  simp only [bindFile, dump_valid ipfix ts c, if_true]
 
 /-- the F9 witnesses are now loaded as fresh caches: `{"Cache":[],"ShardNo":32}`, a null shard, a shard without a map -/
 example : loadDoc (some ⟨32, []⟩) = [] := by decide
@@ -121,5 +195,18 @@ def exCache : Cache :=
   Cache.insert (Cache.insert [] [10,0,0,1] 256 ⟨256, 1, 0, [], [⟨8, 4, 0⟩]⟩) [10,0,0,2] 300 ⟨300, 1, 0, [], [⟨1, 8, 0⟩]⟩
 example : (exCache.map (·.1)).Nodup := by decide
 example : (loadDoc (some (docOf exCache))).lookup [10,0,0,1] 256 = some ⟨256, 1, 0, [], [⟨8, 4, 0⟩]⟩ := by decide
+/-- non-vacuity of the crash-point theorems on the same two-template cache (IPFIX, timestamps 1700000000 + key):
+the recogniser, evaluated by the kernel, accepts the 956-octet file and rejects the file without its last octet,
+the file cut inside the first template, and the empty file -/
+def exTs : Nat → Int := fun k => 1700000000 + k
+example : (dumpJsonTs true exTs exCache).length = 956 := by decide +kernel
+example : jsonValid (dumpJsonTs true exTs exCache) = true := by decide +kernel
+example : jsonValid ((dumpJsonTs true exTs exCache).take 955) = false := by decide +kernel
+example : jsonValid ((dumpJsonTs true exTs exCache).take 300) = false := by decide +kernel
+example : jsonValid ((dumpJsonTs false exTs exCache).take 0) = false := by decide +kernel
+/-- the scanner is not trivial: it accepts a text with whitespace, rejects a trailing comma and a second value -/
+example : jsonValid (str " {\"a\" : [1.5e+3, null]}\n") = true := by decide +kernel
+example : jsonValid (str "{\"a\":[1,]}") = false := by decide +kernel
+example : jsonValid (str "{} {}") = false := by decide +kernel
 
 end Vflow.C11
